@@ -37,6 +37,7 @@ import (
 	"github.com/gopacket/gopacket/layers"
 	"github.com/gopacket/gopacket/pcapgo"
 	"github.com/spq/pkappa2/internal/index"
+	"github.com/spq/pkappa2/internal/index/builder"
 	"github.com/spq/pkappa2/internal/query"
 )
 
@@ -44,7 +45,8 @@ type (
 	c12Packet struct {
 		C    string `json:"c"`
 		S    string `json:"s"`
-		T    int    `json:"t"` // seconds after the base time
+		T    int    `json:"t"`  // seconds after the base time
+		Ms   int    `json:"ms"` // plus milliseconds
 		Data string `json:"data"`
 	}
 	c12Step struct {
@@ -61,20 +63,22 @@ type (
 		Packets []c12Packet `json:"packets"`
 		Auto    bool        `json:"auto"`
 		URL     string      `json:"url"`
+		N       uint64      `json:"n"`
 	}
 	c12Scenario struct {
 		Converters []string  `json:"converters"`
 		Steps      []c12Step `json:"steps"`
 	}
 	c12Tag struct {
-		Name      string   `json:"name"`
-		Def       string   `json:"def"`
-		Color     string   `json:"color"`
-		Convs     []string `json:"convs"`
-		Matches   []uint   `json:"matches"`
-		Uncertain uint     `json:"uncertain"`
-		Fresh     []uint   `json:"fresh"` // recover only: fresh evaluation of the definition
-		FreshErr  string   `json:"fresherr,omitempty"`
+		Name       string   `json:"name"`
+		Def        string   `json:"def"`
+		Color      string   `json:"color"`
+		Convs      []string `json:"convs"`
+		Matches    []uint   `json:"matches"`
+		Uncertain  uint     `json:"uncertain"`
+		Referenced bool     `json:"referenced"`
+		Fresh      []uint   `json:"fresh"` // recover only: fresh evaluation of the definition
+		FreshErr   string   `json:"fresherr,omitempty"`
 	}
 	c12Meta struct {
 		Snap     int               `json:"snap"`
@@ -123,11 +127,12 @@ type (
 		Converters []string          `json:"converters"`
 		Next       uint64            `json:"next"`
 		Pcaps      int               `json:"pcaps"`
-		Conv       map[string]string `json:"conv"` // "<converter> <stream id>" -> "<len> <sha1>" of the converter output
+		Conv       map[string]string `json:"conv"`   // "<converter> <stream id>" -> "<len> <sha1>" of the converter output
+		Guards     []c12Guard        `json:"guards"` // delete / rename of every referenced tag, tried after the restart
 		// after an import that continues a stream of the recovered state
-		ContDone    bool              `json:"cont_done"`
-		StreamsC    map[string]string `json:"streams_c"`
-		NextC       uint64            `json:"next_c"`
+		ContDone bool              `json:"cont_done"`
+		StreamsC map[string]string `json:"streams_c"`
+		NextC    uint64            `json:"next_c"`
 		// after a second (clean) restart
 		New2     string            `json:"new2"`
 		Settled2 bool              `json:"settled2"`
@@ -140,6 +145,13 @@ type (
 		Dir  string     `json:"dir"`
 		Deep bool       `json:"deep"`
 		Cont *c12Packet `json:"cont"`
+		Snap uint64     `json:"snap"`
+	}
+	c12Guard struct {
+		Name   string   `json:"name"`
+		RefBy  []string `json:"refby"` // tags whose definition references it (recomputed from the definitions)
+		Del    string   `json:"del"`   // result of DelTag: "ok" or the error
+		Rename string   `json:"rename"`
 	}
 
 	c12Gates struct {
@@ -211,7 +223,7 @@ func c12WritePcap(fn string, pkts []c12Packet) error {
 			return err
 		}
 		data := buf.Bytes()
-		if err := w.WritePacket(gopacket.CaptureInfo{Timestamp: t0.Add(time.Duration(p.T) * time.Second), CaptureLength: len(data), Length: len(data)}, data); err != nil {
+		if err := w.WritePacket(gopacket.CaptureInfo{Timestamp: t0.Add(time.Duration(p.T)*time.Second + time.Duration(p.Ms)*time.Millisecond), CaptureLength: len(data), Length: len(data)}, data); err != nil {
 			return err
 		}
 	}
@@ -296,7 +308,7 @@ func c12TagsLocked(mgr *Manager) []c12Tag {
 	tags := []c12Tag{}
 	for n, t := range mgr.tags {
 		tags = append(tags, c12Tag{Name: n, Def: t.definition, Color: t.color, Convs: c12SortedStrings(t.converterNames()),
-			Matches: c12Bits(t.Matches.Mask()), Uncertain: uint(t.Uncertain.OnesCount())})
+			Matches: c12Bits(t.Matches.Mask()), Uncertain: uint(t.Uncertain.OnesCount()), Referenced: len(t.referencedBy) != 0})
 	}
 	sort.Slice(tags, func(i, j int) bool { return tags[i].Name < tags[j].Name })
 	return tags
@@ -384,6 +396,7 @@ func (c12T) Fatal(a ...interface{})            { panic(fmt.Sprint(a...)) }
 func (c12T) Fatalf(f string, a ...interface{}) { panic(fmt.Sprintf(f, a...)) }
 
 func c12RunScenario(t c12T, scen c12Scenario, base, outFile string) {
+	builder.VerifSetSnapEvery(0)
 	live := filepath.Join(base, "live")
 	snaps := filepath.Join(base, "snaps")
 	for _, p := range []string{live, snaps} {
@@ -534,6 +547,9 @@ func c12RunScenario(t c12T, scen c12Scenario, base, outFile string) {
 			}
 			pendingImports = append(pendingImports, st.Name)
 			mgr.ImportPcaps([]string{st.Name})
+		case "snapevery":
+			api = false
+			builder.VerifSetSnapEvery(st.N)
 		case "park":
 			api = false
 			gates.mu.Lock()
@@ -833,6 +849,44 @@ func c12Observe(mgr *Manager) (tags []c12Tag, streams map[string]string, conv ma
 	return
 }
 
+// a tag that another definition references (main or sub-query reference) must still be protected
+// after the restart: DelTag and a rename have to be refused
+func c12TryGuards(mgr *Manager, tags []c12Tag) []c12Guard {
+	refby := map[string][]string{}
+	for _, tg := range tags {
+		q, err := query.Parse(tg.Def)
+		if err != nil {
+			continue
+		}
+		f := q.Conditions.Features()
+		seen := map[string]bool{}
+		for _, l := range [][]string{f.MainTags, f.SubQueryTags} {
+			for _, r := range l {
+				if !seen[r] {
+					seen[r] = true
+					refby[r] = append(refby[r], tg.Name)
+				}
+			}
+		}
+	}
+	res := []c12Guard{}
+	for _, tg := range tags {
+		if len(refby[tg.Name]) == 0 {
+			continue
+		}
+		g := c12Guard{Name: tg.Name, RefBy: refby[tg.Name], Del: "ok", Rename: "ok"}
+		typ, _, _ := strings.Cut(tg.Name, "/")
+		if err := mgr.UpdateTag(tg.Name, UpdateTagOperationUpdateName(typ+"/zz-renamed")); err != nil {
+			g.Rename = err.Error()
+		}
+		if err := mgr.DelTag(tg.Name); err != nil {
+			g.Del = err.Error()
+		}
+		res = append(res, g)
+	}
+	return res
+}
+
 func c12CloseTimeout(mgr *Manager) bool {
 	closed := make(chan struct{})
 	go func() {
@@ -876,50 +930,80 @@ func TestVerifC12Recover(t *testing.T) {
 		out.Flush()
 	}
 	for _, spec := range specs {
-		dir := spec.Dir
-		d := c12Dirs(dir)
-		rec := c12Recovered{Dir: dir, Phase: "begin", IndexFiles: c12ScanIndexFiles(d["index"]), StateFiles: c12ScanStateFiles(d["state"])}
-		emit(rec)
-		rec.Phase = "end"
-		mgr, err := New(d["pcap"], d["index"], d["snapshot"], d["state"], d["converter"], d["watch"])
-		if err != nil {
-			rec.New = "error: " + err.Error()
-			emit(rec)
-			continue
-		}
-		rec.New = "ok"
-		rec.Settled = c12Settle(mgr)
-		rec.Tags, rec.Streams, rec.Conv, rec.Config, rec.Webhooks, rec.Converters, rec.Next, rec.Pcaps = c12Observe(mgr)
-		if spec.Cont != nil && rec.Settled {
-			// an import after the restart that continues a stream of the recovered state
-			if err := c12WritePcap(filepath.Join(d["pcap"], "zz-cont.pcap"), []c12Packet{*spec.Cont}); err == nil {
-				mgr.ImportPcaps([]string{"zz-cont.pcap"})
-				time.Sleep(time.Millisecond)
-				if c12Settle(mgr) {
-					rec.ContDone = true
-					_, rec.StreamsC, _, _, _, _, rec.NextC, _ = c12Observe(mgr)
+		spec := spec
+		stage := "scan"
+		var recp *c12Recovered
+		done := make(chan struct{})
+		go func() {
+			defer close(done)
+			func() {
+				dir := spec.Dir
+				d := c12Dirs(dir)
+				builder.VerifSetSnapEvery(spec.Snap)
+				rec := c12Recovered{Dir: dir, Phase: "begin", IndexFiles: c12ScanIndexFiles(d["index"]), StateFiles: c12ScanStateFiles(d["state"])}
+				emit(rec)
+				rec.Phase = "end"
+				recp = &rec
+				stage = "manager.New"
+				mgr, err := New(d["pcap"], d["index"], d["snapshot"], d["state"], d["converter"], d["watch"])
+				if err != nil {
+					rec.New = "error: " + err.Error()
+					emit(rec)
+					return
 				}
-			}
-		}
-		if !c12CloseTimeout(mgr) {
-			rec.New = "ok (Close hangs)"
-			emit(rec)
-			continue
-		}
-		if spec.Deep {
-			// second, clean restart: what the first one wrote must load again
-			mgr2, err := New(d["pcap"], d["index"], d["snapshot"], d["state"], d["converter"], d["watch"])
-			if err != nil {
-				rec.New2 = "error: " + err.Error()
-			} else {
-				rec.New2 = "ok"
-				rec.Settled2 = c12Settle(mgr2)
-				rec.Tags2, rec.Streams2, rec.Conv2, _, _, _, _, rec.Pcaps2 = c12Observe(mgr2)
-				if !c12CloseTimeout(mgr2) {
-					rec.New2 = "ok (Close hangs)"
+				rec.New = "ok"
+				stage = "settling after manager.New"
+				rec.Settled = c12Settle(mgr)
+				rec.Tags, rec.Streams, rec.Conv, rec.Config, rec.Webhooks, rec.Converters, rec.Next, rec.Pcaps = c12Observe(mgr)
+				stage = "delete / rename of referenced tags after the restart"
+				rec.Guards = c12TryGuards(mgr, rec.Tags)
+				stage = "after the delete / rename attempts"
+				if spec.Cont != nil && rec.Settled {
+					// an import after the restart that continues a stream of the recovered state
+					if err := c12WritePcap(filepath.Join(d["pcap"], "zz-cont.pcap"), []c12Packet{*spec.Cont}); err == nil {
+						mgr.ImportPcaps([]string{"zz-cont.pcap"})
+						time.Sleep(time.Millisecond)
+						if c12Settle(mgr) {
+							rec.ContDone = true
+							_, rec.StreamsC, _, _, _, _, rec.NextC, _ = c12Observe(mgr)
+						}
+					}
 				}
+				if !c12CloseTimeout(mgr) {
+					rec.New = "ok (Close hangs)"
+					emit(rec)
+					return
+				}
+				if spec.Deep {
+					// second, clean restart: what the first one wrote must load again
+					stage = "second manager.New / settling"
+					mgr2, err := New(d["pcap"], d["index"], d["snapshot"], d["state"], d["converter"], d["watch"])
+					if err != nil {
+						rec.New2 = "error: " + err.Error()
+					} else {
+						rec.New2 = "ok"
+						rec.Settled2 = c12Settle(mgr2)
+						rec.Tags2, rec.Streams2, rec.Conv2, _, _, _, _, rec.Pcaps2 = c12Observe(mgr2)
+						if !c12CloseTimeout(mgr2) {
+							rec.New2 = "ok (Close hangs)"
+						}
+					}
+				}
+				emit(rec)
+			}()
+		}()
+		select {
+		case <-done:
+		case <-time.After(3 * c12Timeout):
+			// the service loop of the recovered manager does not answer any more
+			r := c12Recovered{Dir: spec.Dir, Phase: "end", New: "hang during: " + stage}
+			if recp != nil {
+				r = *recp
+				r.Phase = "end"
+				r.New = "hang during: " + stage
 			}
+			emit(r)
+			os.Exit(3)
 		}
-		emit(rec)
 	}
 }
